@@ -1,7 +1,7 @@
 import CifModel.Lemmas.StoreIterOk
 import CifModel.Model.StoreContract
 /-
-  Lemmas/StoreWOk — the World-level invariant `WOk`: every managed CIF is `Good` (Inv, PacketsTotal, RowsBelowAll, ScalarCount; content
+  Lemmas/StoreWOk — the World-level invariant `WTied`: every managed CIF is `Good` (Inv, PacketsTotal, RowsBelowAll, ScalarCount; content
   and every snapshot), every open iterator is tied to its store (`IterOk`), and a CIF has at most one open iterator.
 -/
 namespace CifModel.Store
@@ -11,12 +11,12 @@ def Iters (w : World) : Prop := ∀ i e, w.its.getD i none = some e → ∃ s, w
 def OneIter (w : World) : Prop :=
   ∀ i j e e', w.its.getD i none = some e → w.its.getD j none = some e' → e.cif = e'.cif → i = j
 
-structure WOk (w : World) : Prop where
+structure WTied (w : World) : Prop where
   good : WGood w
   iters : Iters w
   one : OneIter w
 
-theorem WOk.empty : WOk {} :=
+theorem WTied.empty : WTied {} :=
   ⟨WGood.empty, (fun i e h => by simp [List.getD] at h), (fun i j e e' h => by simp [List.getD] at h)⟩
 
 theorem liveI_its {w : World} {i : Nat} {e : ITE} {s : Store} (hl : w.liveI i = some (e, s)) : w.its.getD i none = some e := by
@@ -64,12 +64,12 @@ theorem OneIter.of_its {w w' : World} (h : OneIter w) (hits : w'.its = w.its) : 
   intro i j e e' h1 h2; rw [hits] at h1 h2; exact h i j e e' h1 h2
 
 /-- same iterator table, same CIF table -/
-theorem WOk.same {w w' : World} (h : WOk w) (hits : w'.its = w.its) (hcifs : w'.cifs = w.cifs) : WOk w' :=
+theorem WTied.same {w w' : World} (h : WTied w) (hits : w'.its = w.its) (hcifs : w'.cifs = w.cifs) : WTied w' :=
   ⟨h.good.of_cifs hcifs, h.iters.frame hits (fun c s hs _ => by unfold liveC at hs ⊢; rw [hcifs]; exact hs), h.one.of_its hits⟩
 
 /-- same iterator table, one CIF without open iterator gets a new (good) store -/
-theorem WOk.setFree {w w' : World} (h : WOk w) (c : Nat) (s1 : Store) (hg : GoodS s1) (hb : w.cifBusy c = false)
-    (hits : w'.its = w.its) (hcifs : w'.cifs = w.cifs.set c (some s1)) : WOk w' := by
+theorem WTied.setFree {w w' : World} (h : WTied w) (c : Nat) (s1 : Store) (hg : GoodS s1) (hb : w.cifBusy c = false)
+    (hits : w'.its = w.its) (hcifs : w'.cifs = w.cifs.set c (some s1)) : WTied w' := by
   refine ⟨?_, h.iters.frame hits ?_, h.one.of_its hits⟩
   · have := h.good.setCif c s1 hg
     exact this.of_cifs (by rw [hcifs]; rfl)
@@ -115,7 +115,7 @@ theorem liveC_set_self (w : World) (c : Nat) (s s1 : Store) (hl : w.liveC c = so
 
 -- ---- the ops that touch the iterator table ---------------------------------------------------------------------------------------
 
-theorem WOk.cifNew {w w' : World} (h : WOk w) (hits : w'.its = w.its) (hcifs : w'.cifs = w.cifs ++ [some ({} : Store)]) : WOk w' := by
+theorem WTied.cifNew {w w' : World} (h : WTied w) (hits : w'.its = w.its) (hcifs : w'.cifs = w.cifs ++ [some ({} : Store)]) : WTied w' := by
   refine ⟨?_, h.iters.frame hits ?_, h.one.of_its hits⟩
   · intro c s hs
     rw [hcifs] at hs
@@ -128,9 +128,9 @@ theorem WOk.cifNew {w w' : World} (h : WOk w) (hits : w'.its = w.its) (hcifs : w
     rw [hcifs]
     simpa [List.getD, List.getElem?_append_left this] using hs
 
-theorem WOk.cifDel {w w' : World} (h : WOk w) (c : Nat) (hb : w.cifBusy c = false)
+theorem WTied.cifDel {w w' : World} (h : WTied w) (c : Nat) (hb : w.cifBusy c = false)
     (hits : w'.its = w.its.map (fun e => match e with | some e => if e.cif == c then none else some e | none => none))
-    (hcifs : w'.cifs = w.cifs.set c none) : WOk w' := by
+    (hcifs : w'.cifs = w.cifs.set c none) : WTied w' := by
   have hentry : ∀ i e, w'.its.getD i none = some e → w.its.getD i none = some e := by
     intro i e hi
     rw [hits] at hi
@@ -162,10 +162,10 @@ theorem WOk.cifDel {w w' : World} (h : WOk w) (c : Nat) (hb : w.cifBusy c = fals
   · intro i j e e' h1 h2
     exact h.one i j e e' (hentry i e h1) (hentry j e' h2)
 
-theorem WOk.itOpen {w w' : World} (h : WOk w) (l : Nat) (e : LHE) (s : Store) (hl : w.liveL l = some (e, s))
+theorem WTied.itOpen {w w' : World} (h : WTied w) (l : Nat) (e : LHE) (s : Store) (hl : w.liveL l = some (e, s))
     (hb : w.cifBusy e.cif = false) (hv : e.h.validB s.db = true)
     (hits : w'.its = w.its ++ [match (getPackets s e.h).2 with | .ok it => some { cif := e.cif, lh := l, it := it } | .error _ => none])
-    (hcifs : w'.cifs = w.cifs.set e.cif (some (getPackets s e.h).1)) : WOk w' := by
+    (hcifs : w'.cifs = w.cifs.set e.cif (some (getPackets s e.h).1)) : WTied w' := by
   have hs := liveL_liveC hl
   have hgs := h.good.live hs
   have hvalid : e.h.Valid s.db := by
@@ -214,8 +214,8 @@ theorem WOk.itOpen {w w' : World} (h : WOk w) (l : Nat) (e : LHE) (s : Store) (h
       | ok it => rw [hr] at a1; simp only [Option.some.injEq] at a1; subst a1; exact hne hc.symm
     · omega
 
-theorem WOk.itNext {w w' : World} (h : WOk w) (i : Nat) (e : ITE) (s : Store) (hl : w.liveI i = some (e, s))
-    (hits : w'.its = w.its.set i (some { e with it := (nextPacket s e.it).1 })) (hcifs : w'.cifs = w.cifs) : WOk w' := by
+theorem WTied.itNext {w w' : World} (h : WTied w) (i : Nat) (e : ITE) (s : Store) (hl : w.liveI i = some (e, s))
+    (hits : w'.its = w.its.set i (some { e with it := (nextPacket s e.it).1 })) (hcifs : w'.cifs = w.cifs) : WTied w' := by
   have hi := liveI_its hl
   have hs := liveI_liveC hl
   refine ⟨h.good.of_cifs hcifs, ?_, ?_⟩
@@ -236,8 +236,8 @@ theorem WOk.itNext {w w' : World} (h : WOk w) (i : Nat) (e : ITE) (s : Store) (h
     · simp only [Option.some.injEq] at a2; subst a2; rw [k1]; exact h.one j i e1 e a1 hi hc
     · exact h.one j k e1 e2 a1 a2 hc
 
-theorem WOk.itUpd {w w' : World} (h : WOk w) (i : Nat) (e : ITE) (s : Store) (p : List (Str × V)) (hl : w.liveI i = some (e, s))
-    (hits : w'.its = w.its) (hcifs : w'.cifs = w.cifs.set e.cif (some (updatePacket s e.it p).1)) : WOk w' := by
+theorem WTied.itUpd {w w' : World} (h : WTied w) (i : Nat) (e : ITE) (s : Store) (p : List (Str × V)) (hl : w.liveI i = some (e, s))
+    (hits : w'.its = w.its) (hcifs : w'.cifs = w.cifs.set e.cif (some (updatePacket s e.it p).1)) : WTied w' := by
   have hs := liveI_liveC hl
   have hok := h.iters.of_liveI hl
   refine ⟨?_, ?_, h.one.of_its hits⟩
@@ -253,9 +253,9 @@ theorem WOk.itUpd {w w' : World} (h : WOk w) (i : Nat) (e : ITE) (s : Store) (p 
       unfold liveC at hs' ⊢
       rw [hcifs, getD_set_ne' _ _ _ _ hc]; exact hs'
 
-theorem WOk.itRem {w w' : World} (h : WOk w) (i : Nat) (e : ITE) (s : Store) (hl : w.liveI i = some (e, s))
+theorem WTied.itRem {w w' : World} (h : WTied w) (i : Nat) (e : ITE) (s : Store) (hl : w.liveI i = some (e, s))
     (hits : w'.its = w.its.set i (some { e with it := (removePacket s e.it).2.1 }))
-    (hcifs : w'.cifs = w.cifs.set e.cif (some (removePacket s e.it).1)) : WOk w' := by
+    (hcifs : w'.cifs = w.cifs.set e.cif (some (removePacket s e.it).1)) : WTied w' := by
   have hi := liveI_its hl
   have hs := liveI_liveC hl
   have hok := h.iters.of_liveI hl
@@ -283,8 +283,8 @@ theorem WOk.itRem {w w' : World} (h : WOk w) (i : Nat) (e : ITE) (s : Store) (hl
     · exact h.one j k e1 e2 a1 a2 hc
 
 /-- cif_pktitr_close / cif_pktitr_abort: the iterator is gone, the store is what COMMIT / ROLLBACK leave -/
-theorem WOk.itEnd {w w' : World} (h : WOk w) (i : Nat) (e : ITE) (s s1 : Store) (hl : w.liveI i = some (e, s)) (hg : GoodS s1)
-    (hits : w'.its = w.its.set i none) (hcifs : w'.cifs = w.cifs.set e.cif (some s1)) : WOk w' := by
+theorem WTied.itEnd {w w' : World} (h : WTied w) (i : Nat) (e : ITE) (s s1 : Store) (hl : w.liveI i = some (e, s)) (hg : GoodS s1)
+    (hits : w'.its = w.its.set i none) (hcifs : w'.cifs = w.cifs.set e.cif (some s1)) : WTied w' := by
   have hi := liveI_its hl
   refine ⟨(h.good.setCif e.cif _ hg).of_cifs (by rw [hcifs]; rfl), ?_, ?_⟩
   · intro j e' hj
@@ -305,7 +305,7 @@ theorem WOk.itEnd {w w' : World} (h : WOk w) (i : Nat) (e : ITE) (s s1 : Store) 
       · exact h.one j k e1 e2 a1 a2 hc
 
 /-- cif_loop_get_packets not executed (dead handle): the iterator table gets an empty slot -/
-theorem WOk.itNone {w w' : World} (h : WOk w) (hits : w'.its = w.its ++ [none]) (hcifs : w'.cifs = w.cifs) : WOk w' := by
+theorem WTied.itNone {w w' : World} (h : WTied w) (hits : w'.its = w.its ++ [none]) (hcifs : w'.cifs = w.cifs) : WTied w' := by
   have hentry : ∀ i e, w'.its.getD i none = some e → w.its.getD i none = some e := by
     intro i e hi
     rw [hits] at hi
